@@ -21,7 +21,7 @@ func (li AttestationBits) View(spec *common.Spec) *AttestationBitsView {
 }
 
 func (li *AttestationBits) Deserialize(spec *common.Spec, dr *codec.DecodingReader) error {
-	return dr.BitList((*[]byte)(li), uint64(spec.MAX_VALIDATORS_PER_COMMITTEE))
+	return common.ReadBitList(dr, (*[]byte)(li), uint64(spec.MAX_VALIDATORS_PER_COMMITTEE))
 }
 
 func (a AttestationBits) Serialize(spec *common.Spec, w *codec.EncodingWriter) error {
